@@ -213,7 +213,38 @@ static int interleaved_ok(const Program &p, long budget) {
     }
     if (nb == n / 2 + 1) b.reset();
   }
-  return digest_vm(a, na) == want ? 1 : 0;
+  if (digest_vm(a, na) != want) return 0;
+  // a machine obtained by copying (or moving) a paused machine is a distinct instance as well: run the original half
+  // way, copy it, let the original go away, move the copy through a growing vector, run it to the end
+  std::vector<VM> pool;
+  {
+    VM orig(p);
+    long k = 0;
+    while (k < n / 2 && !orig.isDone()) {
+      orig.executeSingle();
+      k++;
+    }
+    VM snap = orig;          // copy of the paused machine
+    pool.push_back(snap);
+    pool.push_back(orig);    // a second copy
+    while (k < budget && !orig.isDone()) {   // the original runs on and ends; its copies must not notice
+      orig.executeSingle();
+      k++;
+    }
+    if (digest_vm(orig, k) != want) return 0;
+  }
+  for (int i = 0; i < 6; i++) pool.push_back(VM(p));   // reallocation moves the machines
+  for (int which = 0; which < 2; which++) {
+    VM &c = pool[which];
+    long k = n / 2 < n ? n / 2 : n;
+    if (solo.isDone() == false && n >= budget) k = n / 2;
+    while (k < budget && !c.isDone()) {
+      c.executeSingle();
+      k++;
+    }
+    if (digest_vm(c, k) != want) return 0;
+  }
+  return 1;
 }
 
 struct Rec {
